@@ -224,7 +224,7 @@ func genTest(o gOpts) func(id, tier string, seed int64, replay string) ([]unit, 
 					return nil, err
 				}
 			}
-			env := append([]string{"VERIF_GEN_SET=" + s.Name, "VERIF_GEN_ARGS=" + strings.Join(s.Args, " ")}, o.Env...)
+			env := append([]string{"VERIF_GEN_SET=" + s.Name, "VERIF_GEN_ARGS=" + strings.Join(s.Args, " "), "VERIF_GEN_FILES=" + strings.Join(s.Files, ":")}, o.Env...)
 			units = append(units, unit{Name: "gen-" + s.Name, Binary: bin, Dir: workDir, Run: "^TestGen$", Shards: shards, Timeout: to, Env: env})
 		}
 		return units, nil
